@@ -183,6 +183,12 @@ func init() {
 			tpls, paths, maxSet := tplQuick, pathsQuick, 2
 			servers := c09Servers
 			wide := false
+			if r.Tier != "thorough" && x.Choose(2) == 1 {
+				// quick tier, second family: every triple of templates below one literal segment (a variable, a mixed segment
+				// and two literals as siblings) under two server lists: sorting and tie-breaking among three siblings
+				tpls, maxSet = []string{"/a/{x}", "/a/a", "/a/wa", "/a/w{x}", "/a/b"}, 3
+				servers = []c09Server{c09Servers[0], c09Servers[1]}
+			}
 			if r.Tier == "thorough" {
 				// two families, both complete: (wide) sets of <=2 templates over the full segment alphabet with every method set and
 				// request paths of <=3 segments; (triples) sets of 3 templates over {a,{x},w{x},wa} under three server lists
